@@ -517,7 +517,7 @@ impl Config {
                     format!("{}AsyncClient", def.service_name().name()),
                     context.type_name(def.service_name().name()).to_string(),
                     format!("Async{}", def.service_name().name()),
-                    format!("{}Endpoints", def.service_name().name()),
+                    format!("{}Endpoints", context.type_name(def.service_name().name())),
                     format!("Async{}Endpoints", def.service_name().name()),
                 ],
                 contents,
